@@ -1,8 +1,7 @@
 /-
-  Model/Tables.lean — tables of internal/analysis (builtin signatures, allowed
-  types, diagnostic severities).  REGENERATED from the Go sources by
-  /verif/extract on every run (vlib/tables.py); this committed copy is what the
-  generator produced for the pinned tree and is overwritten before each build.
+  Model/Tables.lean — REGENERATED from /repo/internal/analysis/{check.go,diagnostic_kind.go} by
+  /verif/extract on every run of bin/check (do not edit): builtin signatures, allowed types,
+  diagnostic severities.
 -/
 namespace NS
 
@@ -17,21 +16,34 @@ def builtinsTable : List (String × String × List String × String) := [
   ("overdraft", "origin", ["account", "asset"], "monetary")
 ]
 
-/-- (diagnostic kind, severity) ; 1 = error, 2 = warning -/
-def severityTable : List (String × Nat) := [
-  ("Parsing", 1), ("InvalidType", 1), ("DuplicateVariable", 1), ("UnboundVariable", 1), ("UnusedVar", 2),
-  ("TypeMismatch", 1), ("RemainingIsNotLast", 1), ("BadAllotmentSum", 1), ("FixedPortionVariable", 2),
-  ("RedundantRemaining", 2), ("UnknownFunction", 1), ("BadArity", 1), ("InvalidWorldOverdraft", 2),
-  ("NoAllotmentInSendAll", 2), ("InvalidUnboundedAccount", 1), ("EmptiedAccount", 2),
-  ("UnboundedAccountIsNotLast", 2), ("DivByZero", 1)
-]
-
 def builtinDocsTable : List (String × String) := [
   ("set_tx_meta", "set transaction metadata"),
   ("set_account_meta", "set account metadata"),
   ("meta", "fetch account metadata"),
   ("balance", "fetch account balance"),
   ("overdraft", "get absolute amount of the overdraft of an account. Returns zero if balance is not negative")
+]
+
+/-- (diagnostic kind, severity) ; 1 = error, 2 = warning -/
+def severityTable : List (String × Nat) := [
+  ("BadAllotmentSum", 1),
+  ("BadArity", 1),
+  ("DivByZero", 1),
+  ("DuplicateVariable", 1),
+  ("EmptiedAccount", 2),
+  ("FixedPortionVariable", 2),
+  ("InvalidType", 1),
+  ("InvalidUnboundedAccount", 1),
+  ("InvalidWorldOverdraft", 2),
+  ("NoAllotmentInSendAll", 2),
+  ("Parsing", 1),
+  ("RedundantRemaining", 2),
+  ("RemainingIsNotLast", 1),
+  ("TypeMismatch", 1),
+  ("UnboundVariable", 1),
+  ("UnboundedAccountIsNotLast", 2),
+  ("UnknownFunction", 1),
+  ("UnusedVar", 2)
 ]
 
 def builtinDocs (name : String) : String :=
